@@ -41,7 +41,16 @@ class FramedIpAddressAVP(DiameterAVP, AddressType):
                                     "of 'str' with IPv4 address format value")
 
         elif isinstance(data, bytes):
+            #: The four octets of the IPv4 address, nothing else.
+            if len(data) != 4:
+                raise DataTypeError("AddressType MUST have data argument "\
+                                    "of 'bytes' with the 4 octets of an "\
+                                    "IPv4 address")
             self._data = data
+
+        else:
+            raise DataTypeError("AddressType MUST have data argument of "\
+                                "'str' or 'bytes'")
 
 
 class CalledStationIdAVP(DiameterAVP, UTF8StringType):
